@@ -458,6 +458,93 @@ def b2_real_runs(chk: Check, pid: str):
     chk.sample({"real_run": ev["desc"], "events": [{k: v for k, v in e.items()} for e in ev["events"][:5]]})
 
 
+def _file_policy_case(case):
+    """One run of the documented input-file entry point (the command-line worker) - the unmet-design policy and the borehole cap
+    are user inputs of that file too."""
+    import contextlib  # noqa: PLC0415
+    import io  # noqa: PLC0415
+    import json  # noqa: PLC0415
+    import shutil  # noqa: PLC0415
+    import tempfile  # noqa: PLC0415
+    import warnings  # noqa: PLC0415
+    from pathlib import Path  # noqa: PLC0415
+
+    from .core import BUILD, import_repo  # noqa: PLC0415
+    from .p_io import base_input  # noqa: PLC0415
+
+    import_repo()
+    import ghedesigner.manager as gm  # noqa: PLC0415
+
+    load, cont, cap = case["load"], case["cont"], case["cap"]
+    d = base_input()
+    d["loads"]["ground_loads"] = [float(load)] * 8760
+    if cont:
+        d["design"]["continue_if_design_unmet"] = True
+    if cap:
+        d["design"]["max_boreholes"] = cap
+    tmp = Path(tempfile.mkdtemp(prefix="c02file-", dir=BUILD))
+    try:
+        f = tmp / "in.json"
+        f.write_text(json.dumps(d))
+        try:
+            with warnings.catch_warnings(), contextlib.redirect_stdout(io.StringIO()), contextlib.redirect_stderr(io.StringIO()):
+                warnings.simplefilter("ignore")
+                rc = gm._run_manager_from_cli_worker(f, tmp / "out")
+            exc = None
+        except Exception as ex:  # noqa: BLE001
+            rc, exc = None, f"{type(ex).__name__}: {ex}"[:160]
+        summ = None
+        if (tmp / "out" / "SimulationSummary.json").exists():
+            summ = json.loads((tmp / "out" / "SimulationSummary.json").read_text())
+        what = f"input file with constant load {load:g} W, continue_if_design_unmet={cont}, max_boreholes={cap}"
+        hmax, hmin = d["geometric_constraints"]["max_height"], d["geometric_constraints"]["min_height"]
+        if not cont:
+            if summ is not None and rc == 0:
+                return f"{what}: a design was reported although no candidate meets the limits and continuing was not requested"
+            if exc is not None and not exc.startswith("ValueError"):
+                return f"{what}: ended with {exc}, not a ValueError"
+            return None
+        if exc is not None or rc != 0 or summ is None:
+            return f"{what}: no design returned ({exc or 'status ' + str(rc)}) although the user asked to continue"
+        h = summ["ghe_system"]["active_borehole_length"]["value"]
+        n = summ["ghe_system"]["number_of_boreholes"]
+        rows = summ["design_selection_search_log"]["data"]
+        counts = []
+        for r in rows:
+            try:
+                a, b = str(r[0]).upper().split("X")
+                counts.append(int(a) * int(b))
+            except ValueError:
+                pass
+        counts = counts or [n]
+        if abs(load) > 1000.0:
+            if abs(h - hmax) > 1e-6:
+                return f"{what}: returned height {h} m is not the maximum height {hmax} m"
+            if cap and n > cap:
+                return f"{what}: returned {n} boreholes, more than the cap"
+            if not cap and n != max(counts):
+                return f"{what}: returned {n} boreholes, not the largest candidate evaluated ({max(counts)})"
+        else:
+            if abs(h - hmin) > 1e-6 or n != 1:
+                return f"{what}: returned {n} boreholes x {h} m, not the single borehole at the minimum height {hmin} m"
+        return None
+    finally:
+        shutil.rmtree(tmp, ignore_errors=True)
+
+
+def file_policy(chk: Check):
+    from .core import parallel_map  # noqa: PLC0415
+
+    cases = [{"load": 5.0e6, "cont": True, "cap": 0}, {"load": 10.0, "cont": True, "cap": 0}, {"load": 5.0e6, "cont": False, "cap": 0},
+             {"load": 5.0e6, "cont": True, "cap": 6}, {"load": -5.0e6, "cont": True, "cap": 0}]
+    for c, bad in zip(cases, parallel_map(_file_policy_case, cases, chunksize=1)):
+        chk.traces += 1
+        chk.evaluations += 1
+        if bad:
+            chk.violation(f"C02 (input-file entry point): {bad}", {"case": c})
+    chk.note("input_file_policy_runs", len(cases))
+
+
 def run(pid: str) -> int:
     chk = Check(pid)
     invs = INVS[pid] + (["LogRowConsistent"] if pid == "C12" else [])
@@ -471,6 +558,7 @@ def run(pid: str) -> int:
     found = check_models(chk, pid)
     if pid == "C02":
         found += liveness(chk)
+        file_policy(chk)
     for f in found:
         chk.violation(f"Search.tla invariant {f['invariant']} violated in run {f['run']}", f)
     crosscheck_mirrors(chk)
